@@ -568,6 +568,8 @@ func Run(c *core.Ctx) int {
 		fmt.Fprintln(os.Stderr, "c14:", err)
 		return 2
 	}
+	loadLegacyMembers(c.Repo)
+	c.Note("legacy members found in UnmarshalJSON methods: %v", LegacyMembers)
 	goblBin, err := clibin.Build(c)
 	if err != nil {
 		fmt.Fprintln(os.Stderr, "c14:", err)
@@ -623,9 +625,15 @@ func Run(c *core.Ctx) int {
 		if n > len(idx) {
 			n = len(idx)
 		}
-		chosen = make([]mutSpec, n)
+		chosen = make([]mutSpec, 0, n)
 		for i := 0; i < n; i++ {
-			chosen[i] = space[idx[i]]
+			chosen = append(chosen, space[idx[i]])
+		}
+		// the row-shape family is small and reaches code no single deletion does: always complete
+		for _, m := range space {
+			if strings.HasPrefix(m.kind, "dup-strip:") {
+				chosen = append(chosen, m)
+			}
 		}
 	}
 	for _, m := range chosen {
